@@ -44,8 +44,9 @@ theorem formats_agree :
     Sb31Consts.fmtCopyTail = [4, 4, 4, 4] ∧ Sb31Consts.fmtFillTail = [4, 4, 4, 4] ∧
     Sb31Consts.fmtLoadMemBlockLittle = true ∧ Sb31Consts.fmtEraseTailLittle = true ∧
     Sb31Consts.fmtCopyTailLittle = true ∧ Sb31Consts.fmtFillTailLittle = true ∧
-    Sb31Consts.fmtDataBlock = [4, 0, 0] ∧ Sb31Consts.fmtDataBlockLittle = true ∧
-    Sb31Consts.hasMemIdBlock = [("CmdLoadBase", true), ("CmdProgFuses", false), ("CmdProgIfr", false)] := by decide
+    Sb31Consts.fmtDataBlock.head? = some 4 ∧ Sb31Consts.fmtDataBlockLittle = true ∧
+    Sb31Consts.hasMemIdBlock = [("CmdLoad", true), ("CmdLoadCmac", true), ("CmdLoadHashLocking", true),
+      ("CmdProgFuses", false), ("CmdProgIfr", false)] := by decide
 
 theorem constants_agree :
     Sb31Consts.headerSize = 60 ∧ Sb31Consts.initTotalLength = 60 ∧ Sb31Consts.descLen = 16 ∧ Sb31Consts.chunkLen = 256 ∧
@@ -205,6 +206,25 @@ theorem history_exports (hc : CryptoLaws c) (s : ObjState) (hg : Good c s) (wf :
   rw [h, hadds, List.append_nil]
   have : hdrSpec (run c s (rs.map Op.exp)) = hdrSpec s := by simp only [hdrSpec, h1, h4]
   rw [this]
+
+/-! ## 5. one signature authenticates the whole file (reductions to an explicit break, no idealised axiom) -/
+
+/-- two byte strings that the hash-chain walk accepts from the same anchor (block count, first block number,
+    expected hash of the first block — all inside the signed range) are equal, or a SHA collision is exhibited -/
+theorem chain_binding (c : CryptoOps) (alg : HashAlg) (hl : Nat) (dec : Nat → Sb31.Bytes → Sb31.Bytes)
+    (k i : Nat) (expected rest₁ rest₂ out₁ out₂ : Sb31.Bytes)
+    (h₁ : walk c alg hl dec k i expected rest₁ = .ok out₁) (h₂ : walk c alg hl dec k i expected rest₂ = .ok out₂) :
+    rest₁ = rest₂ ∨ Break c := walk_binding c alg hl dec k i expected rest₁ rest₂ out₁ out₂ h₁ h₂
+
+/-- keep block 0 of an exported file and replace, reorder, truncate or extend what follows: if the loader still
+    accepts, nothing was changed — or a hash collision is exhibited -/
+theorem tampered_blocks_refused (hc : CryptoLaws c) (s : ObjState) (hg : Good c s) (wf : StateWF c s)
+    (dev : Dev) (obs : List SigOb) (hd : DevOK c dev s obs) (r : Rand) (rest' : Sb31.Bytes) (res : RomOk)
+    (h : romLoad c dev (signedOf c s ++ (sigOf c s r ++ rest')) = .ok res) :
+    signedOf c s ++ (sigOf c s r ++ rest') = (exportSb c s r).2 ∨ Break c := by
+  rcases tamper_blocks_detected hc s hg wf dev obs hd r rest' res h with e | b
+  · left; rw [e, exportSb_bytes]; simp [signedOf, List.append_assoc]
+  · right; exact b
 
 /-! ## non-vacuity: the hypotheses are satisfiable by a concrete, non-trivial container -/
 
